@@ -117,8 +117,15 @@ fn replay_with(cons: &Consensus, chain: &[BlockView], tag: &str, label: &Value, 
         // position of the block in its epoch (the header's epoch field is judged by C03 / C07); in the
         // flat worlds every epoch has EPOCH_LEN blocks, in the dynamic world the length doubles
         let (index, len) = if n == 0 { (0, cons.genesis_epoch_ext().length()) } else { (b.epoch().index(), b.epoch().length()) };
-        if !dynamic && (len != EPOCH_LEN || index != n as u64 % EPOCH_LEN) {
-            report.violation("reference/epoch-shape", format!("{tag}: block {n} claims epoch position {index}/{len} in the flat world"), label.clone());
+        if !dynamic {
+            // permanent difficulty: the genesis epoch has its configured length, every later epoch
+            // epoch_duration_target / 8 blocks
+            let g = cons.genesis_epoch_ext().length();
+            let later = cons.epoch_duration_target() / 8;
+            let want = if (n as u64) < g { (n as u64, g) } else { ((n as u64 - g) % later, later) };
+            if (index, len) != want {
+                report.violation("reference/epoch-shape", format!("{tag}: block {n} claims epoch position {index}/{len} in the flat world, expected {}/{}", want.0, want.1), label.clone());
+            }
         }
         let primary = primary_epoch / len + if index < primary_epoch % len { 1 } else { 0 };
         let g2 = secondary_epoch / len + if index < secondary_epoch % len { 1 } else { 0 };
@@ -458,6 +465,9 @@ pub fn run(ctx: &Ctx) -> Report {
     }
     if let Err(e) = dynamic_family(ctx, &mut report) {
         report.machinery_errors.push(format!("dynamic-epoch family: {e}"));
+    }
+    if let Err(e) = short_genesis_family(ctx, &mut report) {
+        report.machinery_errors.push(format!("short-genesis-epoch family: {e}"));
     }
     if let Err(e) = dao_family(ctx, &mut report) {
         report.machinery_errors.push(format!("NervosDAO family: {e}"));
@@ -836,5 +846,52 @@ fn dao_family(ctx: &Ctx, report: &mut Report) -> Result<(), String> {
         }
     }
     report.count("nervos_dao_chains", n_chains);
+    Ok(())
+}
+
+/// The first epoch change also changes the epoch length although difficulty is permanent: a genesis
+/// epoch of 6 blocks followed by epochs of 10 (production dev chains: 1000 then 1800).  Primary and
+/// secondary epoch rewards leave different remainders over 6 and over 10 blocks; fees are paid across
+/// both boundaries.  The replay takes each block's position from its header and the schedule from
+/// the consensus parameters only.
+fn short_genesis_family(ctx: &Ctx, report: &mut Report) -> Result<(), String> {
+    let mut w = WorldOpts::default();
+    w.primary_epoch_reward = Some(PRIMARY);
+    w.epoch_length = 10;
+    w.genesis_epoch_length = Some(6);
+    let cons = consensus(&w);
+    set_time(time_for_height(100));
+    let mut forge = Forge::new(&ctx.scratch.join("c06-short-genesis-forge"), &cons)?;
+    let g = genesis_cells(&cons);
+    let t1 = fee_tx(&cons, &g, 0, 1_000_003, 1);
+    let t2 = fee_tx(&cons, &g, 1, 2_500_007, 2);
+    let t3 = fee_tx(&cons, &g, 2, 777_777, 1);
+    let id = |t: &TransactionView| t.proposal_short_id();
+    let mut chain = vec![cons.genesis_block().clone()];
+    let mut parent = cons.genesis_hash();
+    let mut lens = std::collections::BTreeSet::new();
+    for n in 1..=30u64 {
+        let mut spec = BlockSpec { miner: (n % 5) as u8 + 1, ts_offset: 7, ..Default::default() };
+        match n {
+            2 => spec.proposals = vec![id(&t1)],
+            5 => spec.txs = vec![t1.clone()],
+            4 => spec.proposals = vec![id(&t2)],
+            6 => spec.txs = vec![t2.clone()],
+            13 => spec.proposals = vec![id(&t3)],
+            16 => spec.txs = vec![t3.clone()],
+            _ => {}
+        }
+        let b = forge.build_on(&parent, &spec)?;
+        lens.insert(b.epoch().length());
+        parent = b.hash();
+        chain.push(b);
+    }
+    forge.goto(&parent)?;
+    if lens.len() < 2 {
+        return Err(format!("the world did not produce epochs of two different lengths: {lens:?}"));
+    }
+    replay_with(&cons, &chain, "short-genesis-epoch", &json!({"chain": "short-genesis-epoch", "epoch_lengths": lens}), report, PRIMARY);
+    report.transitions += 30;
+    report.outcomes.insert(fp(&"short-genesis"));
     Ok(())
 }
